@@ -207,7 +207,46 @@ def run_latebound(ctx, rep, rid="R-C02-latebound"):
                 r.ok(inst, loc_str(b.f, st["loc"]), "%d construction(s), each dominated by a test of the name" % st["n"])
 
 
+def run_exact(ctx, rep, rid="R-C02-enumexact"):
+    """A use that names its enumeration is judged against that enumeration alone.  Every function of the rule that receives the values of
+    one enumeration (a `&[EnumeratedValue]` / `&Vec<EnumeratedValue>` parameter) and can report P0014 decides by iterating over that
+    parameter, and does not consult a library-wide table (a field of the visitor that holds the values of *all* enumerations) -
+    otherwise an unrelated enumeration that happens to define the same name makes the error disappear."""
+    r = rep.rule(rid, "a value checked against its own enumeration is looked up in that enumeration's values (the parameter), not in the table of all values",
+                 floor=1, floor_what="functions that check a value against a given list")
+    n = 0
+    for b in sorted(ctx.prog.bodies.values(), key=lambda x: x.id):
+        if b.f["crate"] != "ironplc_analyzer" or "rule_use_declared_enumerated_value" not in b.f["file"] or "::test" in norm(b.id) or b.f["dk"] == "Closure":
+            continue
+        params = [l for l in range(1, b.f["argc"] + 1) if re.search(r"&(\[|alloc::vec::Vec<)ironplc_dsl::common::EnumeratedValue", re.sub(r"'\w+ ", "", b.f["locals"][l][0]))]
+        if not params or not _mentions_problem(ctx, b, "EnumValueNotDefined", depth=0):
+            continue
+        n += 1
+        group = [b] + [cb for cb in ctx.prog.bodies.values() if cb.f["dk"] == "Closure" and cb.f.get("parent") == b.id]
+        iterates = any((c.callee or "").split("::")[-1] in ("iter", "contains", "into_iter") and c.args and op_place(c.args[0]) is not None and g.root(op_place(c.args[0]))[0] in params
+                       for g in [b] for c in g.calls())
+        wide = set()
+        for g in group:
+            for c in g.calls():
+                if (c.callee or "").split("::")[-1] in ("contains", "get", "contains_key") and c.args:
+                    rp = op_place(c.args[0])
+                    rt = g.root(rp) if rp is not None else None
+                    fs = [x[2] for x in (rt[1] if rt else []) if isinstance(x, list) and x[0] == "f"]
+                    if rt and rt[0] == 1 and fs and re.search(r"Hash(Set|Map)", c.callee or ""):
+                        wide.add(fs[-1])
+        fn = norm(b.id).split("::")[-1]
+        where = "%s:%d" % (b.f["file"], b.f["line"])
+        if wide:
+            r.finding("%s|looks up %s" % (fn, ",".join(sorted(wide))), where, "%s() receives the values of one enumeration but decides with the visitor's table `%s` (all enumerations of the library): "
+                      "an undefined value is accepted as soon as any other enumeration defines that name" % (fn, ",".join(sorted(wide))))
+        elif not iterates:
+            r.finding("%s|ignores its list" % fn, where, "%s() receives the values of one enumeration and never iterates over them" % fn)
+        else:
+            r.ok(fn, where, "decides by iterating over the given values")
+
+
 def run(ctx, rep):
+    run_exact(ctx, rep)
     run_uses(ctx, rep)
     run_eq(ctx, rep)
     run_latebound(ctx, rep)
